@@ -331,6 +331,133 @@ theorem nonRefTD_chain {s : Schema} {trank : String → Nat} (wf : WFT s trank) 
       rw [nonRefTD_step s f n m td hT hb]
       exact ih hent f (by omega)
 
+/-! ## `BaseTypeDescriptor()` and `AggrElemTypeDescriptor()` -/
+
+namespace Spec
+/-- the descriptor at the end of all referent links of a type expression, with the number of links followed:
+    a built-in or an entity is its own end; an aggregate's end is its element's; a defined type's end is that of what it is
+    declared as — an enumeration or select is its own end -/
+inductive BaseEnd (s : Schema) : TRef → DRef → Nat → Prop
+  | base (b : Base) : BaseEnd s (.base b) (.base b) 0
+  | entity (e : String) : BaseEnd s (.entity e) (.entity e) 0
+  | aggr (k : AggKind) (bn : Option (Int × Upper)) (u o : Bool) (el : TRef) (d : DRef) (c : Nat) :
+      BaseEnd s el d c → BaseEnd s (.aggr k bn u o el) d (c + 1)
+  | enum (n : String) (td : TypeDecl) (items : List String) : s.findT n = some td → td.body = .enum items →
+      BaseEnd s (.named n) (.named n) 0
+  | select (n : String) (td : TypeDecl) (ms : List TRef) : s.findT n = some td → td.body = .select ms →
+      BaseEnd s (.named n) (.named n) 0
+  | alias (n : String) (td : TypeDecl) (t : TRef) (d : DRef) (c : Nat) : s.findT n = some td → td.body = .alias t →
+      (∀ k bn u o el, t ≠ .aggr k bn u o el) → BaseEnd s t d c → BaseEnd s (.named n) d (c + 1)
+  | aliasAggr (n : String) (td : TypeDecl) (k : AggKind) (bn : Option (Int × Upper)) (u o : Bool) (el : TRef) (d : DRef)
+      (c : Nat) : s.findT n = some td → td.body = .alias (.aggr k bn u o el) →
+      BaseEnd s el d c → BaseEnd s (.named n) d (c + 1)
+end Spec
+
+theorem viewOf_refOf_base (ts : List DType) (b : Base) : viewOf ts (.base b) = some (baseFT b, .null) := rfl
+
+/-- `BaseTypeDescriptor()` reaches the end the specification names, whenever it is given at least as many loop iterations as
+    there are links (the C++ loop has no bound) -/
+theorem baseTD_end {s : Schema} (hc : descCreation = .beforeInits) {t : TRef} {d : DRef} {c : Nat}
+    (h : BaseEnd s t d c) : ∀ f, c < f → baseTD (s.types.map (typeOf s)) f (refOf t) = d := by
+  induction h with
+  | base b => intro f hf; cases f with
+    | zero => omega
+    | succ f => rfl
+  | entity e => intro f hf; cases f with
+    | zero => omega
+    | succ f => rfl
+  | aggr k bn u o el d c _ ih =>
+    intro f hf
+    cases f with
+    | zero => omega
+    | succ f =>
+      have hne : (refOf el == DRef.null) = false := by cases el <;> rfl
+      show (match viewOf (s.types.map (typeOf s)) (refOf (.aggr k bn u o el)) with
+        | none => refOf (.aggr k bn u o el)
+        | some (_, ref) => if ref == DRef.null then refOf (.aggr k bn u o el) else baseTD _ f ref) = d
+      simp only [refOf, viewOf, hne, Bool.false_eq_true, ↓reduceIte]
+      exact ih f (by omega)
+  | enum n td items hT hb =>
+    intro f hf
+    cases f with
+    | zero => omega
+    | succ f =>
+      show (match viewOf (s.types.map (typeOf s)) (.named n) with
+        | none => DRef.named n
+        | some (_, ref) => if ref == DRef.null then DRef.named n else baseTD _ f ref) = DRef.named n
+      rw [viewOf_named s n td hT]
+      unfold typeOf typeOfM; rw [hb]; simp
+  | select n td ms hT hb =>
+    intro f hf
+    cases f with
+    | zero => omega
+    | succ f =>
+      show (match viewOf (s.types.map (typeOf s)) (.named n) with
+        | none => DRef.named n
+        | some (_, ref) => if ref == DRef.null then DRef.named n else baseTD _ f ref) = DRef.named n
+      rw [viewOf_named s n td hT]
+      unfold typeOf typeOfM; rw [hb]; simp
+  | alias n td t d c hT hb hna _ ih =>
+    intro f hf
+    cases f with
+    | zero => omega
+    | succ f =>
+      show (match viewOf (s.types.map (typeOf s)) (.named n) with
+        | none => DRef.named n
+        | some (_, ref) => if ref == DRef.null then DRef.named n else baseTD _ f ref) = d
+      rw [viewOf_named s n td hT]
+      have href : (typeOf s td).ref = refOf t := by
+        unfold typeOf typeOfM; rw [hb]
+        cases t with
+        | base b => rfl
+        | entity e => rfl
+        | aggr k bn u o el => exact absurd rfl (hna k bn u o el)
+        | named m => simp only [refOf]; split <;> rfl
+      have hne : (refOf t == DRef.null) = false := by cases t <;> rfl
+      simp only [href, hne, Bool.false_eq_true, ↓reduceIte]
+      exact ih f (by omega)
+  | aliasAggr n td k bn u o el d c hT hb _ ih =>
+    intro f hf
+    cases f with
+    | zero => omega
+    | succ f =>
+      show (match viewOf (s.types.map (typeOf s)) (.named n) with
+        | none => DRef.named n
+        | some (_, ref) => if ref == DRef.null then DRef.named n else baseTD _ f ref) = d
+      rw [viewOf_named s n td hT]
+      have href : (typeOf s td).ref = refOf el := by
+        unfold typeOf typeOfM; rw [hb, hc]; rfl
+      have hne : (refOf el == DRef.null) = false := by cases el <;> rfl
+      simp only [href, hne, Bool.false_eq_true, ↓reduceIte]
+      exact ih f (by omega)
+
+theorem rootOf_find {s : Schema} {n : String} {r : TypeDecl} (h : RootOf s n r) : s.findT r.name = some r := by
+  induction h with
+  | here n td hT _ =>
+    have : td.name = n := by
+      unfold Schema.findT at hT
+      have := List.find?_some hT
+      simpa using this
+    rw [this]; exact hT
+  | step _ _ _ _ _ _ _ ih => exact ih
+
+/-- the non-reference descriptor of an element written in place (not a type name) is that element's own descriptor -/
+theorem nonRefTD_inplace (ts : List DType) (f : Nat) (el : TRef) (h : ∀ m, el ≠ .named m) :
+    nonRefTD ts (f + 1) (refOf el) = refOf el := by
+  cases el with
+  | base b => rfl
+  | entity e => rfl
+  | named m => exact absurd rfl (h m)
+  | aggr k bn u o el' =>
+    have hne : (refOf el' == DRef.null) = false := by cases el' <;> rfl
+    show (match viewOf ts (refOf (.aggr k bn u o el')) with
+      | none => refOf (.aggr k bn u o el')
+      | some (ft, ref) => if ref == DRef.null then refOf (.aggr k bn u o el') else if ft != FT.ref then refOf (.aggr k bn u o el')
+          else nonRefTD ts f ref) = _
+    simp only [refOf, viewOf, hne, Bool.false_eq_true, ↓reduceIte]
+    have : (aggFT k != FT.ref) = true := by cases k <;> rfl
+    simp [this]
+
 /-! ## the registry mutation sequence, entity by entity -/
 
 def blank (e : Entity) : DEntity := { name := e.name, abstract := e.abstract }
